@@ -157,6 +157,15 @@ def campaign(c):
             check(c, ['f', '(', x, ',', y, ')', ';'], 'same-spelling')
             check(c, ['let', 'p', '=', x, ';', 'let', 'q', '=', y, ';', 'f', '(', 'p', ',', 'q', ',', x, ',', y, ')', ';'], 'same-spelling')
             check(c, ['let', 'p', '=', x, ';', 'let', 'q', '=', '1.2.3.4', ':', (y if not y.startswith('"') else '80'), ';', 'g', '(', 'k', ':', y, ')', ';'], 'same-spelling')
+    # every pair of operand kinds on the two sides of '/', in every expression context (statement, let, positional and named
+    # argument, nested operand): the tree is the operator node over the two operands as written, whatever their kinds
+    OPND = [['1.2.3.4'], ['255.0.0.1'], ['80'], ['0'], ['65535'], ['65536'], ['0x35'], ['0x0000ffffffffffffffff'], ['true'], ['"s"'], ['a'], ['m', '::', 'c'], ['f', '(', ')'], ['1.2.3.4', ':', '80'], ['-7']]
+    for a in OPND:
+        for b in OPND:
+            e = a + ['/'] + b
+            for ctx in (['let', 's', '='] + e + [';'], ['f', '('] + e + [')', ';'], ['f', '(', 'k', ':'] + e + [',', 'j', ':'] + e + [')', ';'],
+                        ['x', '/'] + e + [';'], ['let', 's', '='] + e + ['/', '9', ';']):
+                check(c, ctx, 'slash-operands')
     # scale: each recursive construct of the grammar repeated n times ("nested to any depth"): '/' chains (all pending operators
     # are reduced on the one token that follows the chain), nested calls, argument lists, module paths, member chains
     for n in ([1, 2, 5, 16, 17, 18, 19, 20, 39, 40, 41, 64, 150] if c.quick else list(range(1, 70)) + [100, 150, 300, 1000]):
